@@ -18,6 +18,8 @@ pub struct SynCfg {
     pub orphan_suffix: bool,
     pub multi_blocks: bool,
     pub name_pool: usize,
+    /// chains of several hundred links now and then (pretty-printing such a tree is quadratic: off where trees are dumped)
+    pub giant_chains: bool,
 }
 
 impl Default for SynCfg {
@@ -31,6 +33,7 @@ impl Default for SynCfg {
             orphan_suffix: true,
             multi_blocks: true,
             name_pool: 8,
+            giant_chains: false,
         }
     }
 }
@@ -168,7 +171,7 @@ impl<'t, 'a> SynGen<'t, 'a> {
         // now and then a long chain (17-40 links): beyond inline stacks and recursion shortcuts of 16
         let n_links = if n_links == 2 && self.t.chance(1, 12) { 17 + self.t.pick(24) } else { n_links };
         // and very rarely a chain of several hundred links (chunked or iterative walks with a boundary)
-        let n_links = if n_links >= 17 && self.t.chance(1, 12) { 500 + self.t.pick(160) } else { n_links };
+        let n_links = if n_links >= 17 && self.cfg.giant_chains && self.t.chance(1, 12) { 500 + self.t.pick(160) } else { n_links };
         let chosen: Vec<BinOp> = (0..n_links).map(|_| *self.t.choose(ops)).collect();
         // first operand: carries `lead`; followed by an operator, so a trailing call matters only for `and`
         let first_ctx = Ctx {
